@@ -248,7 +248,7 @@ def run(prop, tier, seed, replay=None):
         models.append(dict(cfg=check_cfg, states=m.distinct, transitions=m.generated, depth=m.depth, wall_s=round(m.wall, 1)))
         cover.update(m.coverage)
         # 2. behaviours from the permissive model -> real code
-        n_exh, n_sim = (200, 120) if quick else (1200, 800)
+        n_exh, n_sim = (200, 120) if quick else (1000, 700)
         if len(FAMILY[prop]) > 1 and fam != FAMILY[prop][0]:
             n_exh, n_sim = n_exh // 2, n_sim // 2
         g, n_wit, chosen, sim = generate(gen_cfg, seed, n_exh, n_sim, timeout=3000)
@@ -272,7 +272,7 @@ def run(prop, tier, seed, replay=None):
         if fam in ("admit", "notify", "paylater", "dup"):
             bases = [0] if quick else [0, 510]
         for base in bases:
-            part = scripts if (base == 0 or not quick) else scripts[::3]
+            part = scripts if base == 0 else (scripts[::3] if quick else (scripts if base == 510 else scripts[::2]))
             inp = dict(universe=uni, base=base, subs=[SUBS[s] for s in subs], scripts=part, props=props)
             rs = vlib.run_driver_parallel(binary, inp, shards=(None if quick else 14), timeout=(420 if quick else 2400))
             for r in rs:
